@@ -1321,3 +1321,71 @@ pub fn gen_position_from(cur: &mut Cursor, sel: usize) -> (RefPos, &'static str)
     maybe_add_ep(cur, &mut p);
     (p, SOURCES[sel])
 }
+
+/// A near-identical "twin" of a position, chosen by a selector taken from the genome: one man retyped, recoloured,
+/// removed, added or moved one step, a counter changed, or the side flipped. Three selectors out of four give none.
+/// The twin need not be valid. It is handed to the library just before the position itself (DESIGN 5.6), so that any
+/// state the library keeps between calls - caches, memoised verdicts - is as misleading as it can be.
+pub fn twin_of(p: &RefPos, sel: u32) -> Option<RefPos> {
+    if sel & 3 != 1 {
+        return None;
+    }
+    let bytes = super::splitmix(sel as u64 ^ 0x7477_696e).to_le_bytes();
+    let mut cur = Cursor::new(&bytes);
+    let mut t = p.clone();
+    let men: Vec<Sq> = (0..64u8).filter(|&s| matches!(p.b[s as usize], Some((_, pc)) if pc != Pc::K)).collect();
+    let kind = cur.below(9);
+    match kind {
+        0 | 1 if !men.is_empty() => {
+            let s = men[cur.below(men.len())];
+            let (c, old) = p.b[s as usize].unwrap();
+            let pool: Vec<Pc> = [Pc::P, Pc::N, Pc::B, Pc::R, Pc::Q].into_iter().filter(|&x| x != old && (x != Pc::P || pawn_ok(s))).collect();
+            t.b[s as usize] = Some((c, pool[cur.below(pool.len())]));
+        }
+        2 if !men.is_empty() => {
+            let s = men[cur.below(men.len())];
+            let (c, pc) = p.b[s as usize].unwrap();
+            t.b[s as usize] = Some((c.inv(), pc));
+        }
+        3 => t.full = match cur.below(4) {
+            0 => p.full.wrapping_add(1),
+            1 => p.full.wrapping_sub(1),
+            2 => 1,
+            _ => cur.u16(),
+        },
+        4 => t.half = match cur.below(4) {
+            0 => p.half.wrapping_add(1),
+            1 => p.half.wrapping_sub(1),
+            2 => 0,
+            _ => cur.u16() % 160,
+        },
+        5 if !men.is_empty() => {
+            let s = men[cur.below(men.len())];
+            t.b[s as usize] = None;
+        }
+        6 => {
+            let col = if cur.bool() { Col::W } else { Col::B };
+            let pc = cur.pick(&[Pc::P, Pc::N, Pc::B, Pc::R, Pc::Q]);
+            put_random(&mut cur, &mut t, (col, pc));
+        }
+        7 if !men.is_empty() => {
+            let s = men[cur.below(men.len())];
+            let m = p.b[s as usize].unwrap();
+            let d = cur.pick(&[(0i8, 1i8), (1, 0), (0, -1), (-1, 0), (1, 1), (-1, -1), (1, -1), (-1, 1)]);
+            if let Some(to) = mk_sq(file_of(s) + d.0, rank_of(s) + d.1) {
+                if p.b[to as usize].is_none() && (m.1 != Pc::P || pawn_ok(to)) {
+                    t.b[s as usize] = None;
+                    t.b[to as usize] = Some(m);
+                }
+            }
+        }
+        _ => {
+            t.side = p.side.inv();
+            t.ep = None;
+        }
+    }
+    if t == *p {
+        return None;
+    }
+    Some(t)
+}
